@@ -58,6 +58,7 @@ T = {
  'c17n': ('a program evaluating a library constant under a stochastic context more than once', 'C17 program-draw-count (needed the consts program)'),
  'c18w': ('an evaluation failing inside a nested FPy-to-FPy call, then a program reaching that callee through a nested call on the same thread', 'C18 A3 (exc:RuntimeError) in failure-mix runs'),
  'c19t': ('a cursor of a sibling branch / a descendant / from beyond an opaque pass handed to forward', 'C19 forward-across-unrelated'),
+ 'c18u': ('the same non-zero value passed as int and as float in one process, the later one reaching a result without arithmetic', 'C18 A3m (needed the comparison of whole results: representation, flags, context)'),
 }
 base = os.path.join(os.path.dirname(os.path.dirname(os.path.abspath(__file__))), 'seeded')
 for mid, (needs, caught) in T.items():
